@@ -139,7 +139,7 @@ def post_code(ctx, ops, impl):
             st = state.get(p[1])
             if i.startswith("ok"):
                 if st is None or st["used"] or st["wrong"] >= mx or p[2] != "right":
-                    bad.append((" | ".join(ops[start:idx]), o, "reset code accepted although it was used, locked out, wrong or never issued"))
+                    bad.append((ops[start:idx + 1], "reset code accepted although it was used, locked out, wrong or never issued"))
                     continue
                 st["used"] = True
             elif st is not None and not st["used"] and p[2] != "right":
